@@ -121,7 +121,7 @@ Definition outcome2 (k : kind2) (r : result) : Prop :=
   | K2Ok ret w ctr => exists cw logs, r = ROk cw ctr (map (beval rho) ret) logs /\ WA w cw
   | K2Revert ret ctr => r = RRevert ctr (map (beval rho) ret)
   | K2Halt kd ctr => r = RHalt ctr kd
-  | K2Stuck _ | K2Fuel | K2Early => True
+  | K2Stuck _ | K2Fuel => True
   end.
 
 Definition sound_rec (rec : recfun) : Prop :=
@@ -286,7 +286,7 @@ Proof.
 Qed.
 
 Lemma outcome2_definite : forall k r,
-  outcome2 k r -> (match k with K2Stuck _ | K2Fuel | K2Early => True | _ => r <> RFuel end).
+  outcome2 k r -> (match k with K2Stuck _ | K2Fuel => True | _ => r <> RFuel end).
 Proof.
   intros k r H. destruct k; cbn in *; auto.
   - destruct H as [cw [logs [-> _]]]. discriminate.
@@ -527,7 +527,25 @@ Proof.
     set (d := jumpi_decide (oracle (ss_path sg) c true) (oracle (ss_path sg) c false) vt vf loop) in *.
     destruct Hsim as [Hfalse [Htrue Hbad]].
     destruct (d_follow_true d && negb (is_jumpdest (f_code fr) t)) eqn:Eearly.
-    + destruct Hin as [<-|[]]. exists O. exact I.
+    + apply andb_true_iff in Eearly. destruct Eearly as [_ Einv]. apply negb_true_iff in Einv.
+      cbn [fst] in Hin. destruct Hin as [<-|Hin].
+      * cbn [l2_path l2_kind] in *.
+        assert (Hc : eval rho c <> 0).
+        { inversion Hsat as [|x xs Hx _]. subst. unfold holds in Hx. cbn in Hx. apply Z.eqb_neq. exact Hx. }
+        exists 1%nat.
+        rewrite (exec_step_done O _ _ _) by (intros rs; rewrite Hstep; exact (Hbad Hc Einv)).
+        cbn [outcome2]. rewrite (R2_ctr _ _ _ _ _ H2). reflexivity.
+      * destruct (d_symbolic d && d_follow_false d); [|destruct Hin].
+        destruct (Hext _ _ _ _ _ Hin) as [pre Hp]. cbn [ss_path] in Hp.
+        assert (Hc : eval rho c = 0).
+        { rewrite Hp in Hsat. apply sat_app2 in Hsat. inversion Hsat as [|x xs Hx _]. subst.
+          unfold holds in Hx. cbn in Hx. apply Z.eqb_eq. exact Hx. }
+        destruct (Hfalse Hc) as [s' [Hs' HR']].
+        assert (Hrest : rest_same (f_this fr) s s') by (apply (step_i_local lim rs0 i (inst_frame fr) s s' Hi Hs')).
+        assert (H2' : R2 fr w ctr _ s') by (eapply R_R2; [exact H2 | apply HR' | exact Hrest]).
+        destruct (Hsound _ _ _ _ _ H2' l Hin Hsat) as [n Hn].
+        exists (S n).
+        rewrite (exec_step_continue n _ _ s') by (intros rs; rewrite Hstep; exact Hs'). exact Hn.
     + cbn [fst] in Hin. apply in_app_or in Hin. destruct Hin as [Hin|Hin].
       * destruct (d_follow_true d) eqn:Eft; [|destruct Hin].
         cbn [andb] in Eearly. apply negb_false_iff in Eearly.
@@ -575,13 +593,12 @@ Lemma resume_one_extends : forall fr s wf rest ro rsz on_ok sl l,
   In l (fst (resume_one rec fr s wf rest ro rsz on_ok sl)) -> exists pre, l2_path l = pre ++ l2_path sl.
 Proof.
   intros fr s wf rest ro rsz on_ok sl l H. unfold resume_one in H.
-  destruct (l2_kind sl) as [ret w2 c2|ret c2|kd c2| | |].
+  destruct (l2_kind sl) as [ret w2 c2|ret c2|kd c2| |].
   - destruct (on_ok ret w2) as [[[st ret'] w3]|].
     + apply Hext in H. rewrite resume_path in H. exact H.
     + destruct H as [<-|[]]. exists []. reflexivity.
   - apply Hext in H. rewrite resume_path in H. exact H.
   - apply Hext in H. rewrite resume_path in H. exact H.
-  - destruct H as [<-|[]]. exists []. reflexivity.
   - destruct H as [<-|[]]. exists []. reflexivity.
   - destruct H as [<-|[]]. exists []. reflexivity.
 Qed.
@@ -600,7 +617,10 @@ Proof.
   - destruct (visits_of (jumpid (se_of fr w) sg) (ss_visits sg)) as [vt vf].
     set (d := jumpi_decide (oracle (ss_path sg) c true) (oracle (ss_path sg) c false) vt vf loop) in *.
     destruct (d_follow_true d && negb (is_jumpdest (f_code fr) t)).
-    + destruct Hin as [<-|[]]. exists []. reflexivity.
+    + cbn [fst] in Hin. destruct Hin as [<-|Hin].
+      * exists [(c, true)]. reflexivity.
+      * destruct (d_symbolic d && d_follow_false d); [|destruct Hin]. apply Hext in Hin. cbn [ss_path] in Hin.
+        destruct Hin as [pre Hp]. eapply extends_cons. exact Hp.
     + cbn [fst] in Hin. apply in_app_or in Hin. destruct Hin as [Hin|Hin].
       * destruct (d_follow_true d); [|destruct Hin]. apply Hext in Hin. cbn [ss_path] in Hin.
         destruct Hin as [pre Hp]. eapply extends_cons. exact Hp.
@@ -775,7 +795,7 @@ Proof.
       rewrite Hstat. unfold s_oog_range in Eoog. unfold oog_range. rewrite Eoog. fold to. rewrite Epre, Edepth.
       fold transfers. fold this. rewrite Hge. reflexivity. }
     unfold resume_one in Hl.
-    destruct (l2_kind sl) as [ret w2 ctr2|ret ctr2|kd ctr2|why| |] eqn:Ek; cbn [outcome2] in Hn1.
+    destruct (l2_kind sl) as [ret w2 ctr2|ret ctr2|kd ctr2|why|] eqn:Ek; cbn [outcome2] in Hn1.
     + (* the callee succeeded *)
       destruct Hn1 as [cw2 [logs [Hr HW2]]].
       eapply (step_then _ s _ _ subc w1c (s_ctr s) _ n1 Hr); [discriminate | |].
@@ -790,7 +810,6 @@ Proof.
       eapply (step_then _ s (s_fail ctr2 []) _ subc w1c (s_ctr s) _ n1 Hn1); [discriminate | |].
       * intros rs Hrs. rewrite Hpre_body, Hrs. subst s_fail. cbv beta. cbn [map length]. rewrite Nat.min_0_r. reflexivity.
       * eapply Hsound; [|exact Hl|exact Hsat]. apply (Hfail_R2 ctr2 []).
-    + destruct Hl as [<-|[]]. rewrite Ek. exists O. exact I.
     + destruct Hl as [<-|[]]. rewrite Ek. exists O. exact I.
     + destruct Hl as [<-|[]]. rewrite Ek. exists O. exact I.
 Qed.
@@ -949,7 +968,7 @@ Proof.
        end).
     { intros rs. rewrite Hpre, Hge, Hacc. reflexivity. }
     unfold resume_one in Hl.
-    destruct (l2_kind sl) as [ret w2 ctr2|ret ctr2|kd ctr2|why| |] eqn:Ek; cbn [outcome2] in Hn1.
+    destruct (l2_kind sl) as [ret w2 ctr2|ret ctr2|kd ctr2|why|] eqn:Ek; cbn [outcome2] in Hn1.
     + destruct Hn1 as [cw2 [logs [Hr HW2]]].
       destruct (const_bytes ret) as [code|] eqn:Ecode.
       * destruct (const_bytes_eval _ _ Ecode) as [Hcode_eq Hcode_ok].
@@ -967,7 +986,6 @@ Proof.
     + eapply (step_then _ s (s_fail ctr2 []) _ subc w1c ctr1 _ n1 Hn1); [discriminate | |].
       * intros rs Hrs. rewrite Hpre2, Hrs. reflexivity.
       * eapply Hsound; [|exact Hl|exact Hsat]. apply (Hfail_R2 ctr2 []).
-    + destruct Hl as [<-|[]]. rewrite Ek. exists O. exact I.
     + destruct Hl as [<-|[]]. rewrite Ek. exists O. exact I.
     + destruct Hl as [<-|[]]. rewrite Ek. exists O. exact I.
 Qed.
